@@ -1422,10 +1422,10 @@ func (r *c20Runner) flush(stage string) error {
 			}
 			w := strings.SplitN(p.want, "\x00", 2)
 			if string(items[0]) != w[0] {
-				r.addDiff(h.Finding{Stage: stage, Kind: "diff", What: "bytes read by the task (inputBytes)", Input: p.key, Config: p.cfg, Impl: h.Q(c20Clip([]byte(w[0]))), Model: h.Q(c20Clip(items[0]))})
+				r.addDiff(h.Finding{Stage: stage, Kind: "diff", What: "bytes read by the task (inputBytes)", Input: p.key, Config: p.cfg, Impl: h.Q(c20clip([]byte(w[0]))), Model: h.Q(c20clip(items[0]))})
 			}
 			if string(items[1]) != w[1] {
-				r.addDiff(h.Finding{Stage: stage, Kind: "diff", What: "bytes written by the task (outBytes)", Input: p.key, Config: p.cfg, Impl: h.Q(c20Clip([]byte(w[1]))), Model: h.Q(c20Clip(items[1]))})
+				r.addDiff(h.Finding{Stage: stage, Kind: "diff", What: "bytes written by the task (outBytes)", Input: p.key, Config: p.cfg, Impl: h.Q(c20clip([]byte(w[1]))), Model: h.Q(c20clip(items[1]))})
 			}
 		case "ops":
 			items := h.DecodeListReply(b)
@@ -1631,7 +1631,7 @@ func items2strings(items [][]byte) []string {
 	return s
 }
 
-func c20Clip(b []byte) []byte {
+func c20clip(b []byte) []byte {
 	if len(b) > 200 {
 		return append(append([]byte{}, b[:200]...), "…"...)
 	}
